@@ -303,16 +303,81 @@ def _fit_kw(name, rng):
     return {}
 
 
+def accepted_params(name):
+    """Names `Algorithm.set_params` accepts for the class, from the *generated* description (the model's
+    `setParamAccepted`, which the `c16.setparam` run lines compare with the code): constructor parameters other than
+    random_state / verbose that exist as attributes.  Falls back to the hand table for a class without description."""
+    d = _GEN.get('descs', {}).get(name)
+    if not d:
+        return sorted(SPEC[name]['sets'])
+    attrs = {i['attr'] for i in d['init']}
+    return [p for p in d['params'] if p in attrs and p not in ('random_state', 'verbose')]
+
+
+def derived_params(name):
+    """accepted parameters that `__init__` does not store unchanged (canonicalised, validated, replaced by an object)"""
+    d = _GEN.get('descs', {}).get(name)
+    if not d:
+        return []
+    kind = {i['attr']: i['kind'] for i in d['init']}
+    return [p for p in accepted_params(name) if kind.get(p) != 'param']
+
+
+def set_value(rng, name, param):
+    """A value for `set_params({param: value})`: of the type of the constructor's default, *not* restricted to the
+    canonical spellings (upper-case strings, -1, 0, None, a new solver object)."""
+    import inspect
+    cls = W.estimator_classes()[name]
+    hand = list(SPEC[name]['sets'].get(param, []))
+    try:
+        default = inspect.signature(cls.__init__).parameters[param].default
+    except (KeyError, ValueError):
+        default = None
+    pool = list(hand)
+    if isinstance(default, bool):
+        pool += [True, False]
+    elif isinstance(default, int):
+        pool += [-1, 1, 2, 3]
+    elif isinstance(default, float):
+        pool += [1e-3, 0.1] if 'tol' in param else [0, 0.3, 0.5, 1]
+    elif isinstance(default, str):
+        alts = [default] + [h for h in hand if isinstance(h, str)]
+        if param == 'modularity':
+            alts += ['newman', 'potts', 'dugue']
+        pool += alts + [a.upper() for a in alts] + [a.capitalize() for a in alts]
+        if param == 'solver' and name in ('GSVD', 'SVD', 'PCA', 'HITS'):
+            pool.append({'__est__': 'LanczosSVD', 'params': {}})
+    elif default is None:
+        if param == 'embedding_method':
+            pool.append(_embedding_choices(rng))
+        elif param == 'n_jobs':
+            pool += [-1, 1, 2, None]
+        elif param == 'regularization':
+            pool += [0, 0.5, None]
+        elif param == 'solver':
+            pool.append({'__est__': 'LanczosSVD', 'params': {}})
+        elif not hand:
+            pool.append(None)
+    if not pool:
+        return None, False
+    return rng.choice(pool), True
+
+
 def make_job(rng, name, n_hist=None, target_kind=None):
     spec = SPEC[name]
     params = spec['params'](rng)
     n_hist = rng.choice([0, 1, 1, 2, 2, 3]) if n_hist is None else n_hist
     hist = []
+    names = accepted_params(name) if name not in OPAQUE_EXPECTED else []
     for _ in range(n_hist):
-        if spec['sets'] and rng.random() < 0.3:
-            k = rng.choice(sorted(spec['sets']))
-            hist.append({'op': 'set', 'params': {k: rng.choice(spec['sets'][k])}})
-        else:
+        done = False
+        if names and rng.random() < 0.35:
+            k = rng.choice(names)
+            v, ok = set_value(rng, name, k)
+            if ok:
+                hist.append({'op': 'set', 'params': {k: v}})
+                done = True
+        if not done:
             # earlier fits see every kind of input (also the ones on which this class raises)
             kind = rng.choice(KINDS if rng.random() < 0.5 else spec['targets'] + ['bip'])
             inp = make_input(rng, kind)
@@ -584,6 +649,9 @@ def classify_refit(job, refit, fresh):
     p = current_params(job)
     if 'shuffle_nodes' in p:
         extra['shuffle_nodes'] = bool(p['shuffle_nodes'])
+    sets = sorted({k for op in job['history'] if op['op'] == 'set' for k in op['params']} & set(derived_params(job['cls'])))
+    if sets:
+        extra['set_derived'] = ','.join(sets)
     if job['cls'] == 'GNNClassifier':
         # a validation mask drawn by any earlier fit is kept by the object
         extra['validation'] = any(bool(op['input'].get('kw', {}).get('validation')) for op in job['history']
@@ -607,10 +675,21 @@ def est_cases(ctx, job, static_names):
     explicit = 'random_state' in job['params'] or 'random_state' in (job['target'].get('kw') or {})
     if explicit:
         fresh_job['np_seed'] = job['np_seed'] + 1
-    fresh, obj = W.run_history(fresh_job, trace=_trace_factory)
+    try:
+        fresh, obj = W.run_history(fresh_job, trace=_trace_factory)
+    except Exception as e:      # the constructor refuses the current parameters: there is no fresh estimator to compare with
+        ctx.count('fresh-constructor-raises:' + type(e).__name__) if hasattr(ctx, 'count') else None
+        return [], {'outcome': 'err constructor', 'state': None}, fresh_job
     if fresh['state'] is not None:
         fresh['state'] = _strip_trace(fresh['state'])
+    # a parameter set by set_params keeps the spelling the caller gave it, the constructor stores its canonical form
+    # ('Newman' / 'newman', 0 / None): such an attribute is compared through the results it produces, not as a value
     again, _ = W.run_history(dict(fresh_job, np_seed=fresh_job['np_seed'] + (2 if explicit else 0)))
+    set_names = {k for op in job['history'] if op['op'] == 'set' for k in op['params']}
+    if set_names:
+        for r in (refit, fresh, again):
+            if r['state'] is not None:
+                r['state'] = {k: v for k, v in r['state'].items() if k not in set_names}
     cases = []
     desc = {'job': job}
     hist_fits = [op for op in job['history'] if op['op'] == 'fit']
